@@ -67,6 +67,16 @@ func (rs *ranges[H]) Add(h H) {
 	}
 }
 
+// RemoveUpTo removes all the headers up to and including the given height from all the ranges.
+func (rs *ranges[H]) RemoveUpTo(height uint64) {
+	rs.lk.Lock()
+	defer rs.lk.Unlock()
+
+	for _, r := range rs.ranges {
+		r.Remove(height)
+	}
+}
+
 // First provides a first non-empty range, while cleaning up empty ones.
 func (rs *ranges[H]) First() (*headerRange[H], bool) {
 	rs.lk.Lock()
